@@ -195,6 +195,16 @@ func cmdCheck(args []string) int {
 				deferred[fmt.Sprintf("%s (checked under %s)", o.Name, strings.Join(o.OwnerProps, ","))] = true
 				continue
 			}
+			if sp := r.Spec; sp != nil && len(sp.ClauseProps) > 0 {
+				// clauses tagged [name@Cxx] belong to those properties only; everything untagged (safety, invariants, locks)
+				// is checked under every property the contract serves
+				lbl := clauseLabelOf(o.Name)
+				if cp, tagged := sp.ClauseProps[lbl]; tagged {
+					if !hasProp(cp, pid) {
+						continue
+					}
+				}
+			}
 			o.Props = []string{pid}
 			keep = append(keep, o)
 			obs = append(obs, o)
@@ -336,7 +346,7 @@ func cmdCheck(args []string) int {
 			rec.Note = rp.note
 			records = append(records, rec)
 			if *verbose {
-				fmt.Fprintf(os.Stderr, "FAILED %s (%s) %s\n  %s\n  %v\n", o.Name, r.Status, o.Pos, o.Desc, r.Tried)
+				fmt.Fprintf(os.Stderr, "FAILED %s (%s) %s\n  %s\n  %v %v\n", o.Name, r.Status, o.Pos, o.Desc, r.Tried, r.Errors)
 			}
 		}
 	}
@@ -528,4 +538,20 @@ func cmdBaseline(args []string) int {
 	}
 	fmt.Println("baseline names for", len(out), "functions")
 	return 0
+}
+
+// clauseLabelOf: "pkg.F#post.label~2" -> "label"; "pkg.F#step.send.ch.label" -> "label"
+func clauseLabelOf(name string) string {
+	i := strings.Index(name, "#")
+	if i < 0 {
+		return ""
+	}
+	rest := name[i+1:]
+	if t := strings.Index(rest, "~"); t >= 0 {
+		rest = rest[:t]
+	}
+	if d := strings.LastIndex(rest, "."); d >= 0 {
+		return rest[d+1:]
+	}
+	return ""
 }
